@@ -32,6 +32,15 @@ def fam_refs(n):
     return "program p\n  x = " + s + "\nend program p\n"
 
 
+def fam_defop_pow(n):
+    """valid expressions V(0)=a, V(d+1) = ( V(d) ) ** c + .y. b  (theorem
+    Fp.Expr.parse_calls_exponential_witness: 2^d <= calls in the model)"""
+    s = "a"
+    for _ in range(n):
+        s = "(" + s + ") ** c + .y. b"
+    return "program p\n  x = " + s + "\nend program p\n"
+
+
 def _nest(open_, close, n, body="x = 1"):
     lines = ["program p"]
     for i in range(n):
@@ -103,6 +112,7 @@ def fam_units(n):
 FAMILIES = {
     "nested-parens": (fam_parens, 1, 32, 64),
     "nested-refs": (fam_refs, 1, 32, 64),
+    "paren-pow-defined-unary": (fam_defop_pow, 1, 16, 32),
     "nested-if": (fam_if, 1, 32, 128),
     "nested-do": (fam_do, 1, 32, 128),
     "label-do-continue": (fam_labeldo, 1, 32, 128),
